@@ -19,12 +19,13 @@
   Also: `NewEntityWith`, `Builder.New` with a target, batch creation, `Assign`, value writes
   (`Set`, pointer writes), resources and listeners.
   `Relations.Set`, `Batch.SetRelation` / `Relations.SetBatch`.
-  Not yet in the closure (covered by the correspondence only): `Batch.RemoveEntities`,
+  and `Batch.RemoveEntities`. Not yet in the closure (covered by the correspondence only):
   `LoadEntities`.
 -/
 import ArcheProofs.Lemmas.GOps2
 import ArcheProofs.Lemmas.SetRel
 import ArcheProofs.Props.C08_SetRel
+import ArcheProofs.Props.C08_Remove
 
 namespace Arche.Props.C01.Reach
 open Arche Arche.World Arche.Arr Arche.Storage Arche.IndexInv Arche.SameRows Arche.Graph Arche.Closed Arche.TInv Arche.KInv Arche.Move Arche.Remove Arche.Cov Arche.Cache Arche.SInv Arche.DInv Arche.Create Arche.Frames Arche.BatchOps Arche.GInv Arche.GOps Arche.GVals Arche.GOps2 Arche.SetRel Arche.BatchLoop
@@ -177,6 +178,10 @@ inductive Reach : World → List Entity → List Entity → Prop
   /-- `Batch.SetRelation` / `Relations.SetBatch` (Q variants: followed by `lock`) -/
   | setRelationBatch {w is lv} (h : Reach w is lv) (f : Filter) (comp : CompId) (target : Entity) (n : Nat) (bs : Array BatchEntry)
       (hok : (w.setRelationBatchNoNotify f comp target).out = .ok (n, bs)) : Reach (w.setRelationBatchNoNotify f comp target).w is lv
+  /-- `Batch.RemoveEntities` -/
+  | removeEntities {w is lv} (h : Reach w is lv) (f : Filter) (n : Nat) (ts : List Nat) (hg : w.getTables f = some ts)
+      (hok : (w.removeEntities f).out = .ok n) :
+      Reach (w.removeEntities f).w is ((BatchRemove.selEnts w ts).foldl List.erase lv)
   /-- `World.Set`, a write through the `Get` pointer or through `Query.Get` -/
   | write {w is lv} (h : Reach w is lv) (t r : Nat) (id : CompId) (v : Val) : Reach (w.setCell t r id v) is lv
   /-- resources and listeners: fields the invariants do not read -/
@@ -216,6 +221,10 @@ theorem reach_ginv {w : World} {is lv : List Entity} (h : Reach w is lv) : GInv 
   | assign h e hi rel target comps hreg hok ih => exact ginv_assign _ _ _ ih e hi rel target comps hreg hok
   | setRelation h e hi comp target hok ih => exact ginv_setRelation _ _ _ ih e hi comp target hok
   | setRelationBatch h f comp target n bs hok ih => exact Arche.Props.C08.SetRel.ginv_setRelationBatch _ _ _ ih f comp target n bs hok
+  | removeEntities h f n ts hg hok ih =>
+    obtain ⟨ts', hg', G', _⟩ := BatchRemove.ginv_removeEntities _ _ _ ih f n hok
+    rw [hg] at hg'; simp only [Option.some.injEq] at hg'
+    rw [hg']; exact G'
   | write h t r id v ih => exact ginv_setCell _ _ _ ih t r id v
   | @other w0 _ _ h res rc l ih => exact ginv_congr (w := w0) rfl rfl rfl rfl rfl rfl rfl rfl rfl ih
 
